@@ -461,14 +461,9 @@ def _gen_tdc_new(ctx, cases):
         c = _tdc_case(sc, lab, desc, lk, sd, via, call=_call_form(rng, desc, via), nojit=True, tags=("wb-nojit",))
         _NOJIT_CASES.append(c)
         cases.append(c)
-    # ---- (f) float dtypes numba cannot type (reported under a finding key while /repo rejects them)
-    rng = ctx.sub("wb-numba-dtype")
-    for sd in NUMBA_HOSTILE:
-        for _ in range(6 if T else 3):
-            n = rng.randint(1, 20)
-            sc = _small_scores(rng, n, sd)
-            desc = rng.random() < 0.5
-            cases.append(_tdc_case(sc, _rand_labels(rng, n, "bool"), desc, "bool", sd, "tdc", tags=("wb-numba-dtype", "s:" + sd)))
+    # (float16 and byte-swapped float scores are refused by numba inside tdc with NotImplementedError / TypingError:
+    # no q-value is returned, so the property, which speaks about returned q-values of supported dtypes, is not
+    # engaged; observation kept in repo_fixes/OBS-tdc-float16-scores.py, not a finding)
 
 
 SERIES_LABEL_DTYPES = ["bool", "int64", "int8", "uint8", "float64", "float32", "object", "boolean", "Int64"]
